@@ -1,4 +1,4 @@
-//go:build verifmc && !verifmc_codec
+//go:build verifmc && !verifmc_codec && !verifmc_all
 
 package scen
 
